@@ -15,6 +15,7 @@ package common
 //@   ensures forall a :: 0 <= a && a < len(priorities) ==> (0 <= gPerm[a] && gPerm[a] < len(priorities) && priorities[a] == oldat(priorities, gPerm[a]))
 //@   ensures forall b :: 0 <= b && b < len(priorities) ==> (0 <= gInv[b] && gInv[b] < len(priorities) && priorities[gInv[b]] == oldat(priorities, b))
 //@   ensures forall a, b :: 0 <= a && a < b && b < len(priorities) ==> gPerm[a] != gPerm[b]
+//@   ensures distinct-sorted-is-strict: (forall a, b :: 0 <= a && a < b && b < len(priorities) ==> oldat(priorities, a) != oldat(priorities, b)) ==> (forall a, b :: 0 <= a && a < b && b < len(priorities) ==> priorities[a] > priorities[b])
 //@   ensures [C15 C17] same-elements: pset(priorities, len(priorities)) == old(pset(priorities, len(priorities)))
 
 //@ func IsDistributionFilled
